@@ -56,6 +56,8 @@ func (c *Ctx) emitOp03(r opRun, m modeling.Mesh) {
 		c.Emit("c03.holds.filter_spec", r.args+" "+out, "true")
 	case "removenull":
 		c.Emit("c03.holds.removenull_spec", r.args+" "+out, "true")
+	case "weld":
+		c.Emit("c03.holds.weld_spec", r.args+" "+out, "true")
 	case "crop":
 		if isIdentity(m) {
 			c.Emit("c03.holds.crop_spec", r.args+" "+out, "true")
